@@ -11,10 +11,10 @@ import (
 )
 
 const ruleText = "one case = fresh api state (no keys, no sessions, dev mode off, authenticator flag off, logical clock 0) followed by op lines: " +
-	"config changes through the real config system (keys/dev/cfgchange), authset, adv (logical clock), clean, logout (real auth/reset endpoint) and req lines served by the real mainHandler " +
+	"config changes through the real config system (keys/dev/cfgchange/overlap), authset, adv (logical clock), clean, logout (real auth/reset endpoint) and req lines served by the real mainHandler " +
 	"(directly, over a real TCP connection, or through the database bridge). Families: complete decision tables required permission x granted read x granted write x method class per credential source " +
 	"(authenticator, API key Bearer/Basic, session cookie, dev mode, bridge), origin x host x dev-mode tables, route tables (no match, method mismatch, nil handler, plain handler, module not ready, dirty path, endpoints), " +
-	"key-configuration parsing, dead-credential histories (a session that expired / was slid k times and expired / was reset, an API key past its expiry, presented 2-4 times in a row with and without other events, the session cleaner or a key re-import in between, through read and write handlers), random histories of key changes / session creation / expiry / reset with repeated presentations, and grammar+mutation Authorization/Cookie/Origin header strings. " +
+	"key-configuration parsing, dead-credential histories (a session that expired / was slid k times and expired / was reset, an API key past its expiry, presented 2-4 times in a row with and without other events, the session cleaner or a key re-import in between, through read and write handlers), overlapped key imports (the option is changed again while the import of the previous value is parked right after its configuration read; probes after quiescence), random histories of key changes / session creation / expiry / reset with repeated presentations, and grammar+mutation Authorization/Cookie/Origin header strings. " +
 	"A case is non-trivial if at least one of its requests reaches a registered handler route with a credential decision to take; distinct by the hash of its op lines."
 
 var permPool = []int{-2, -1, 0, 1, 2, 3, 4, 5, -3, 100, -100, 127, -128}
@@ -180,6 +180,7 @@ func generate(r *hxlib.Run, emit func(hxlib.Case)) {
 	g.regressions()
 	g.deadSessions()
 	g.deadKeys()
+	g.overlappedImports()
 	g.tableAuthenticator()
 	g.randomPerms()
 	g.tableKeys()
